@@ -2,6 +2,7 @@ package html
 
 import (
 	"io"
+	"sync"
 
 	"github.com/elliotchance/gedcom/v39"
 	"github.com/elliotchance/gedcom/v39/html/core"
@@ -81,7 +82,7 @@ func (c *PublishHeader) WriteHTMLTo(w io.Writer) (int64, error) {
 	}
 
 	if c.options.ShowSurnames {
-		badge := core.NewCountBadge(getSurnames(c.document).Len())
+		badge := core.NewCountBadge(getSurnames(c.document, c.options.LivingVisibility).Len())
 		item := core.NewNavItem(
 			core.NewComponents(core.NewText("Surnames "), badge),
 			c.selectedTab == selectedSurnamesTab,
@@ -125,11 +126,33 @@ func (c *PublishHeader) WriteHTMLTo(w io.Writer) (int64, error) {
 	).WriteHTMLTo(w)
 }
 
-var surnames = gedcom.NewStringSet()
+// The surnames are needed for the header of every page so they are only worked
+// out again when the document or the visibility is not the same as last time.
+var (
+	surnamesMutex      sync.Mutex
+	surnamesDocument   *gedcom.Document
+	surnamesVisibility LivingVisibility
+	surnames           *gedcom.StringSet
+)
 
-func getSurnames(document *gedcom.Document) *gedcom.StringSet {
-	if surnames.Len() == 0 {
+// getSurnames returns the surnames of the individuals that are visible. That is
+// everybody, except for living individuals when they are hidden or replaced
+// with a placeholder.
+func getSurnames(document *gedcom.Document, visibility LivingVisibility) *gedcom.StringSet {
+	surnamesMutex.Lock()
+	defer surnamesMutex.Unlock()
+
+	if surnames == nil || surnamesDocument != document ||
+		surnamesVisibility != visibility {
+		surnames = gedcom.NewStringSet()
+		surnamesDocument = document
+		surnamesVisibility = visibility
+
 		for _, individual := range document.Individuals() {
+			if !isVisible(individual, visibility) {
+				continue
+			}
+
 			surname := individual.Name().Surname()
 			if surname != "" {
 				surnames.Add(surname)
@@ -138,4 +161,19 @@ func getSurnames(document *gedcom.Document) *gedcom.StringSet {
 	}
 
 	return surnames
+}
+
+// isVisible is false for living individuals unless they are shown.
+func isVisible(individual *gedcom.IndividualNode, visibility LivingVisibility) bool {
+	if individual.IsLiving() {
+		switch visibility {
+		case LivingVisibilityHide, LivingVisibilityPlaceholder:
+			return false
+
+		case LivingVisibilityShow:
+			// Proceed.
+		}
+	}
+
+	return true
 }
